@@ -85,13 +85,40 @@ def make_scenarios(ctx, count):
                  ("call", typ, off, q))
             if rng.random() < 0.1:
                 feed(G.f_probe(rng, net), ("other",))
-        s.meta = dict(reqs=reqs, glob=glob, mtu=mtu, own=cfg["mac"])
+        globs = [glob]
+        if rng.random() < 0.6:
+            # next session: Reset, (usually) a different icon on the platform, Discover, reassemble again
+            feed(G.f_reset(rng, net, m=m, tos=0), ("other",))
+            g2 = dict(glob)
+            if rng.random() < 0.8:
+                ns = max(0, min(32768, rng.choice([0, 1, P, P + 1, 3 * P, size // 2 + 1, rng.randint(0, 32768)])))
+                g2.update(icon_seed=rng.randint(1, 2 ** 31), icon_size=ns, _icon_cache=None)
+                s.add("GSET icon=%s" % G.global_kw(g2)["icon"])
+            reqs.append(("newglob", len(globs)))
+            reqs.pop()          # (GSET is not an input; the switch is keyed on the Reset's position below)
+            switch_at = len(reqs)
+            globs.append(g2)
+            feed(G.f_discover(rng, net, m=m, tos=0, bridged=bridged), ("other",))
+            d = data_for(g2, 0x0E)
+            off = 0
+            while True:
+                q = nseq()
+                feed(W.qlt(net.own, net.mappers[m], q, 0x0E, off, eth_src=net.bridges[m] if bridged else None),
+                     ("reasm2", 0x0E, off, q))
+                ln = min(P, max(0, len(d) - off))
+                if len(d) - off <= ln or off + ln > 0xFFFF:
+                    break
+                off += ln
+        else:
+            switch_at = None
+        s.meta = dict(reqs=reqs, glob=glob, mtu=mtu, own=cfg["mac"], globs=globs, switch_at=switch_at)
         scns.append(s)
     return scns
 
 
 def monitor(scn, sobj, rep, sf, ck):
     reqs, glob, mtu, own = sobj.meta["reqs"], sobj.meta["glob"], sobj.meta["mtu"], sobj.meta["own"]
+    globs, switch_at = sobj.meta.get("globs", [glob]), sobj.meta.get("switch_at")
     calls = 0
     reasm = {}
     types = set()
@@ -99,6 +126,8 @@ def monitor(scn, sobj, rep, sf, ck):
         if idx >= len(reqs) or inp.out is None:
             break
         r = reqs[idx]
+        if switch_at is not None and idx >= switch_at:
+            glob = globs[1]
         if r[0] == "other":
             continue
         _, typ, off, q = r
@@ -138,10 +167,15 @@ def monitor(scn, sobj, rep, sf, ck):
         types.add("known" if typ in (0x0E, 0x11, 0x13) else "unknown")
         if r[0] == "reasm":
             reasm.setdefault(typ, []).append((off, payload, more))
+        elif r[0] == "reasm2":
+            reasm.setdefault("second-session-icon", []).append((off, payload, more))
         if ln > 0:
             rep.nontrivial((mtu, typ, len(d), off))
     for typ, chunks in reasm.items():
-        d = data_for(glob, typ)
+        d = data_for(globs[-1], 0x0E) if typ == "second-session-icon" else data_for(globs[0], typ)
+        if typ == "second-session-icon":
+            rep.count("second_session_reassemblies")
+            typ = 0x0E
         got = b"".join(c[1] for c in chunks)
         ok = got == d and not chunks[-1][2] and all(c[2] for c in chunks[:-1])
         rep.count("reassemblies")
@@ -179,6 +213,7 @@ def run(ctx):
     rep.need("reassemblies", c.get("reassemblies", 0), 1200)
     rep.need("reassemblies_3plus_chunks", c.get("reassemblies_3plus_chunks", 0), 50)
     rep.need("types:unknown", c.get("types:unknown", 0), 100)
+    rep.need("second_session_reassemblies", c.get("second_session_reassemblies", 0), 300)
     if ctx.quick:
         sw = H.build(ctx.work, "asan", program="vh_sweep", esp32=False)
         args = []
